@@ -323,7 +323,12 @@ class Register(Unit):
         return None
 
     def replay(self, model, label):
-        return dict(confirmed=False, call='register_packet_listener over the 9 flag combinations', observed='')
+        return replay_register()
+
+    def bounded(self, rng, tier):
+        rp = replay_register()
+        return dict(name='C13.register.concrete', evaluations=rp['n'], bound='all (early, outgoing) flag combinations x method / decorator '
+                    'on a real Connection', failures=[dict(call=rp['call'], observed=rp['observed'], witness='register')] if rp['confirmed'] else [])
 
 
 _match = z3.Function('match', z3.IntSort(), z3.BoolSort())
@@ -414,6 +419,40 @@ class Filter(Unit):
                     bound='every ordered selection of up to 3 of 4 classes x every packet class')
 
 
+def replay_register():
+    names = {(False, False): 'packet_listeners', (True, False): 'early_packet_listeners',
+             (False, True): 'outgoing_packet_listeners', (True, True): 'early_outgoing_packet_listeners'}
+    n = 0
+    for early in (None, False, True):
+        for outgoing in (None, False, True):
+            for via in ('method', 'decorator'):
+                n += 1
+                c = Connection('localhost', 25565)
+                before = {v: list(getattr(c, v)) for v in names.values()}
+                kw = {}
+                if early is not None:
+                    kw['early'] = early
+                if outgoing is not None:
+                    kw['outgoing'] = outgoing
+                f = lambda p: None
+                if via == 'method':
+                    c.register_packet_listener(f, PA, PC, **kw)
+                elif c.listener(PA, PC, **kw)(f) is not f:
+                    return dict(confirmed=True, n=n, call='@listener', observed='the decorator does not return the function')
+                target = names[(bool(early), bool(outgoing))]
+                for v in names.values():
+                    lst = getattr(c, v)
+                    if v == target:
+                        ok = lst[:-1] == before[v] and len(lst) == len(before[v]) + 1 and lst[-1].callback is f and \
+                            list(lst[-1].packets_to_listen) == [PA, PC]
+                    else:
+                        ok = lst == before[v]
+                    if not ok:
+                        return dict(confirmed=True, n=n, call='listener registered via %s with %r' % (via, kw),
+                                    observed='list %s is wrong afterwards (expected the new listener at the end of %s only)' % (v, target))
+    return dict(confirmed=False, n=n, call='listener registration', observed='conforms')
+
+
 class Decorator(Unit):
     """@connection.listener(T1, T2, **flags) is register_packet_listener(f, T1, T2, **flags) and hands the function back."""
     prop = 'C13'
@@ -452,7 +491,7 @@ class Decorator(Unit):
         return None
 
     def replay(self, model, label):
-        return dict(confirmed=False, call='Connection.listener decorator', observed='')
+        return replay_register()
 
 
 def units(tier):
